@@ -47,6 +47,8 @@ type Walker struct {
 	ts     *Terms
 	frames int
 	over   bool
+	cut      int // chains truncated at maxChainDepth
+	maxDepth int
 	// Watch selects additional call instructions to report as events.
 	Watch func(ci ssa.CallInstruction) string
 }
@@ -78,7 +80,14 @@ func (w *Walker) walk(fr *Frame, visit func(fr *Frame)) {
 		return
 	}
 	visit(fr)
-	if fr.Depth >= maxChainDepth || fr.Fn.Blocks == nil {
+	if fr.Fn.Blocks == nil {
+		return
+	}
+	if fr.Depth > w.maxDepth {
+		w.maxDepth = fr.Depth
+	}
+	if fr.Depth >= maxChainDepth {
+		w.cut++ // a chain was truncated: events below this frame are not seen
 		return
 	}
 	// closures passed as arguments are entered at the use site
